@@ -242,6 +242,7 @@ def call(kw):
 def run_history_call(a, seed):
     """an earlier session: plain research.backtest, nothing instrumented.  Returns the exception class or 'none'."""
     kw = concrete(a, seed=seed)
+    kw['hyperparameters'] = {'every': 9, 'tag': 7}      # an extra hyperparameter the probe does not pass
     try:
         call(kw)
         return 'none'
